@@ -4,6 +4,7 @@ import (
 	"bytes"
 	"embed"
 	"encoding/base64"
+	"encoding/gob"
 	"encoding/json"
 	"fmt"
 	"math/rand"
@@ -383,6 +384,50 @@ func valueDesc(it vocab.Item) string {
 	return d
 }
 
+func maxInt64(a, b int64) int64 {
+	if a > b {
+		return a
+	}
+	return b
+}
+
+var gobNestShapes = []string{"list-in-list", "object-in-object", "list-of-two"}
+
+// gobNested builds a gob stream nested depth levels deep with the library's own wire shapes: an item list is a [][]byte, an
+// object a map[string][]byte whose "object"/"tag" entry holds the next level.
+func gobNested(shape string, depth int) []byte {
+	data := []byte("https://example.com/~jdoe")
+	enc := func(v any) []byte {
+		b := bytes.Buffer{}
+		if err := gob.NewEncoder(&b).Encode(v); err != nil {
+			panic(err)
+		}
+		return b.Bytes()
+	}
+	for i := 0; i < depth; i++ {
+		switch shape {
+		case "list-in-list":
+			data = enc([][]byte{data})
+		case "list-of-two":
+			data = enc([][]byte{[]byte("https://example.com/first"), data})
+		default:
+			data = enc(map[string][]byte{"id": []byte(fmt.Sprintf("https://example.com/n/%d", i)), "type": []byte("Create"), "object": data})
+		}
+	}
+	return data
+}
+
+// the gob entry points that reach the generic item decoder
+var gobNestEntries = func() []decodeEntry {
+	var out []decodeEntry
+	for _, e := range allDecodeEntries {
+		if e.Name == "GobDecode(pkg)" || e.Name == "(*ItemCollection).GobDecode" || e.Name == "(*Activity).GobDecode" || e.Name == "(*Object).UnmarshalBinary" || e.Name == "(*OrderedCollection).GobDecode" {
+			out = append(out, e)
+		}
+	}
+	return out
+}()
+
 func decoderFamily(name string) string {
 	switch {
 	case strings.Contains(name, "JSON"):
@@ -427,6 +472,35 @@ func init() {
 						c.Sample(map[string]any{"entry": e.Name, "input": clipB(in[:minInt(len(in), 160)]), "input_len": len(in)})
 					}
 					decodeOnce(c, e, in, true)
+				}},
+				{Name: "gob-nesting-growth", N: len(gobNestShapes) * len(gobNestEntries), Exhaustive: true, Run: func(c *Ctx, idx int) {
+					// gob streams of lists nested in lists (and objects nested in objects): the work a decoder does - measured as heap
+					// objects allocated, a deterministic proxy - must grow linearly with the depth. The cumulative bound used for JSON
+					// does not fit gob, so the law is relative: the step from depth 12 to 18 may cost at most a few times the step
+					// from depth 6 to 12. A decoder that does the work of a level twice per level above it fails by a factor of 64.
+					shape := gobNestShapes[idx%len(gobNestShapes)]
+					entry := gobNestEntries[idx/len(gobNestShapes)]
+					c.Distinct("gobnest|"+shape+"|"+entry.Name, true)
+					var m [3]uint64
+					for k, depth := range []int{6, 12, 18} {
+						in := gobNested(shape, depth)
+						c.Pending(entry.Name + " :: gob " + shape + " nested " + fmt.Sprint(depth) + " deep")
+						var ms0, ms1 runtime.MemStats
+						runtime.GC()
+						runtime.ReadMemStats(&ms0)
+						if c.Guard(entry.Name, func() { _, _ = entry.Call(in) }) {
+							return
+						}
+						runtime.ReadMemStats(&ms1)
+						m[k] = ms1.Mallocs - ms0.Mallocs
+						c.Eval(1)
+						c.Count("gob-nesting-decodes", 1)
+					}
+					step1, step2 := int64(m[1])-int64(m[0]), int64(m[2])-int64(m[1])
+					if step2 > 4*maxInt64(step1, 0)+20000 {
+						c.Fail("work|gob|nesting-super-linear", fmt.Sprintf("%s on gob %s nested 6/12/18 deep allocated %d/%d/%d heap objects: the work is out of proportion to the depth", entry.Name, shape, m[0], m[1], m[2]),
+							map[string]any{"entry": entry.Name, "shape": shape, "mallocs": m})
+					}
 				}},
 				{Name: "mutations", N: tierN(tier, 100000, 5000000), Run: func(c *Ctx, idx int) {
 					if c.Build != "plain" && idx%10 != 0 {
